@@ -1,6 +1,7 @@
 //! Compile-fail witnesses (each paired with a compiling twin that differs only in the offending
 //! line) for the closed-world facts the MIR/HIR rules of /verif assume.  Run with
-//! `cargo +nightly test --doc --offline` (error codes are only checked on nightly).
+//! `cargo +nightly test --doc --offline` (error codes are only checked on nightly).  The twins are
+//! `no_run`: they are only type-checked, nothing of the analysed crate is executed.
 //!
 //! The crate names `rosu_map` as an external user would.
 
@@ -19,7 +20,7 @@
 /// ```
 ///
 /// twin:
-/// ```
+/// ```no_run
 /// use rosu_map::section::general::GameMode;
 /// use rosu_map::section::hit_objects::{BorrowedCurve, CurveBuffers, PathControlPoint};
 /// let pts = [PathControlPoint::default()];
@@ -56,7 +57,7 @@ pub struct W1;
 /// ```
 ///
 /// twin:
-/// ```
+/// ```no_run
 /// use rosu_map::section::general::GameMode;
 /// use rosu_map::section::hit_objects::SliderPath;
 /// let mut path = SliderPath::new(GameMode::Osu, Vec::new(), None);
@@ -76,7 +77,7 @@ pub struct W2;
 /// ```
 ///
 /// twin:
-/// ```
+/// ```no_run
 /// use rosu_map::section::general::GameMode;
 /// use rosu_map::section::hit_objects::SliderPath;
 /// let _ = SliderPath::new(GameMode::Osu, Vec::new(), None);
@@ -96,7 +97,7 @@ pub struct W3;
 /// ```
 ///
 /// twin:
-/// ```
+/// ```no_run
 /// use rosu_map::section::general::GameMode;
 /// use rosu_map::section::hit_objects::{PathControlPoint, SliderPath};
 /// let mut path = SliderPath::new(GameMode::Osu, Vec::new(), None);
@@ -116,7 +117,7 @@ pub struct W4;
 /// ```
 ///
 /// twin:
-/// ```
+/// ```no_run
 /// use rosu_map::section::hit_objects::CurveBuffers;
 /// let bufs = CurveBuffers::default();
 /// let _ = bufs.clone();
@@ -135,7 +136,7 @@ pub struct W5;
 /// ```
 ///
 /// twin:
-/// ```
+/// ```no_run
 /// use rosu_map::section::hit_objects::SliderEventsIter;
 /// let mut ticks = Vec::new();
 /// let mut iter = SliderEventsIter::new(0.0, 1000.0, 1.0, 100.0, 1000.0, 2, &mut ticks);
@@ -155,7 +156,7 @@ pub struct W6;
 /// ```
 ///
 /// twin:
-/// ```
+/// ```no_run
 /// use rosu_map::DecodeState;
 /// use rosu_map::section::hit_objects::HitObjectsState;
 /// let mut state = HitObjectsState::create(14);
@@ -175,7 +176,7 @@ pub struct W7;
 /// ```
 ///
 /// twin:
-/// ```
+/// ```no_run
 /// use rosu_map::{DecodeBeatmap, Beatmap};
 /// let _ = Beatmap::decode(&b"osu file format v14"[..]).unwrap();
 /// ```
